@@ -334,47 +334,56 @@ FOREIGN_BACKENDS = ("JuliaBackend", "MatlabBackend")
 def r6_assignment_hooks_assign(ctx, rid):
     """Every backend's hook that renders `lhs[idx] = rhs` must emit an *assignment* of rhs to the addressed slots
     (in place `lhs[idx] = rhs` or functional `lhs = lhs.at[idx].set(rhs)`); an accumulating form (`.at[].add`, `+=`)
-    agrees with the other backends only while the slots are zero on entry."""
+    agrees with the other backends only while the slots are zero on entry.  The emitted text is evaluated per path
+    (engine.templates: f-string / .format / % / concatenation, local string variables spliced in)."""
     import re
+    from engine.templates import emissions
     n = 0
     for cls in S.backend_classes(ctx):
         for hook in ASSIGN_HOOKS:
             f = cls.methods.get(hook)
             if f is None:
                 continue
-            for c in walk_shallow(f.node):
-                tpl_node = None
-                if isinstance(c, ast.Call) and call_name(c) == "add_code_line" and c.args and isinstance(c.args[0], ast.JoinedStr):
-                    tpl_node = c.args[0]
-                elif isinstance(c, ast.Return) and isinstance(c.value, ast.JoinedStr):
-                    tpl_node = c.value
-                if tpl_node is None:
-                    continue
-                t = fstring_template(tpl_node)
-                if cls.name in FOREIGN_BACKENDS:
-                    ctx.info(rid, f, c, f"{cls.name}: target-language assignment template `{t}` (not parsed)")
-                    continue
-                n += 1
-                tt = re.sub(r"\s+", "", t)
-                holes = re.findall(r"⟨(.*?)⟩", tt)
-                plain = re.fullmatch(r"⟨[^⟩]*⟩(\[⟨[^⟩]*⟩\])?=⟨[^⟩]*⟩", tt)
-                func = re.fullmatch(r"⟨([^⟩]*)⟩=⟨([^⟩]*)⟩\.at\[⟨[^⟩]*⟩\]\.(\w+)\(⟨[^⟩]*⟩\)", tt)
-                if plain:
-                    ctx.ok(rid, f, c, f"{cls.name}.{hook}: plain assignment `{t}`", {"template": t})
-                elif func:
-                    same = func.group(1) == func.group(2)
-                    if func.group(3) == "set" and same:
-                        ctx.ok(rid, f, c, f"{cls.name}.{hook}: functional assignment `{t}`", {"template": t})
+            seen = set()
+            for decisions, lines, ps in emissions(ctx, f, sinks=("add_code_line",), returns=(hook == "_format_assignment")):
+                for em in lines:
+                    c, t = em.stmt, em.template
+                    if t is None:
+                        if isinstance(em.arg, ast.Call) and call_name(em.arg) in ASSIGN_HOOKS:
+                            continue        # delegates the rendering to another hook, which is checked itself
+                        if em.kind == "return" and not isinstance(em.arg, (ast.JoinedStr, ast.BinOp, ast.Call)):
+                            continue
+                        raise AnalysisError(f"{rid}: {f.qual}: emitted text `{ast.unparse(em.arg)[:80]}` is not a recognisable string template")
+                    key = (id(c), t)
+                    if key in seen:
+                        continue
+                    seen.add(key)
+                    if cls.name in FOREIGN_BACKENDS:
+                        ctx.info(rid, f, c, f"{cls.name}: target-language assignment template `{t}` (not parsed)")
+                        continue
+                    n += 1
+                    tt = re.sub(r"\s+", "", t)
+                    H = r"(?:⟨[^⟩]*⟩)+"          # a run of holes (a name followed by its index string is two holes)
+                    plain = re.fullmatch(rf"{H}(\[{H}\])?={H}", tt)
+                    func = re.fullmatch(rf"({H})=({H})\.at\[{H}\]\.(\w+)\({H}\)", tt)
+                    label = f"{cls.name}.{hook}: `{t}`"
+                    if plain:
+                        ctx.ok(rid, f, c, f"{cls.name}.{hook}: plain assignment `{t}`", {"template": t, "path": ps}, label=label)
+                    elif func:
+                        same = func.group(1) == func.group(2)
+                        if func.group(3) == "set" and same:
+                            ctx.ok(rid, f, c, f"{cls.name}.{hook}: functional assignment `{t}`", {"template": t, "path": ps}, label=label)
+                        else:
+                            ctx.violation(rid, f, c, f"{cls.name}.{hook} emits `{t}`: the addressed slots are "
+                                                     f"{'updated with .' + func.group(3) + '()' if func.group(3) != 'set' else 're-bound to another array'} "
+                                                     f"instead of being assigned (NumPy/Torch overwrite them): results differ whenever the slots are non-zero on entry",
+                                          {"template": t}, label=label)
+                    elif re.search(r"(\+=|-=|\*=)", tt):
+                        ctx.violation(rid, f, c, f"{cls.name}.{hook} emits an augmented assignment `{t}` where the other backends assign", {"template": t},
+                                      label=label)
                     else:
-                        ctx.violation(rid, f, c, f"{cls.name}.{hook} emits `{t}`: the addressed slots are "
-                                                 f"{'updated with .' + func.group(3) + '()' if func.group(3) != 'set' else 're-bound to another array'} "
-                                                 f"instead of being assigned (NumPy/Torch overwrite them): results differ whenever the slots are non-zero on entry",
-                                      {"template": t})
-                elif re.search(r"(\+=|-=|\*=)", tt):
-                    ctx.violation(rid, f, c, f"{cls.name}.{hook} emits an augmented assignment `{t}` where the other backends assign", {"template": t})
-                else:
-                    raise AnalysisError(f"{rid}: {f.qual}: unrecognised assignment template `{t}`")
-    if n < 4:
+                        raise AnalysisError(f"{rid}: {f.qual}: unrecognised assignment template `{t}`")
+    if n < 3:
         raise AnalysisError(f"{rid}: only {n} python-target assignment templates found")
 
 
@@ -398,6 +407,6 @@ RULES = [
     ("C02-R3", r3_history, 3),
     ("C02-R4", r4_index_base, 3),
     ("C02-R5", r5_helper_agreement, 10),
-    ("C02-R6", r6_assignment_hooks_assign, 4),
+    ("C02-R6", r6_assignment_hooks_assign, 3),
     ("C02-R7", r_str_membership, 1),
 ]
